@@ -369,4 +369,39 @@ theorem dataQuery_cut_nosort_eq (m : EvalMode) (s : Schema) (ds : Dataset) (t : 
       rw [(dataQuery_beyond _ s ds t req (Nat.lt_of_not_le h)).1,
         (dataQuery_beyond _ s ds t req (Nat.lt_of_not_le h')).1]
 
+/-! ## further small facts -/
+
+/-- two different pages of a duplicate-free list share no element -/
+theorem pages_disjoint_list {α : Type} (l : List α) (hnd : l.Nodup) (k i j : Nat) (hij : i < j)
+    (x : α) (hi : x ∈ (l.drop (i * k)).take k) (hj : x ∈ (l.drop (j * k)).take k) : False := by
+  have hle : i * k + k ≤ j * k := by
+    have := Nat.mul_le_mul_right k (Nat.succ_le_of_lt hij)
+    rwa [Nat.succ_mul] at this
+  rw [List.take_drop] at hi
+  have h1 : x ∈ l.take (i * k + k) := List.mem_of_mem_drop hi
+  have h2 : x ∈ l.take (j * k) := by
+    have e : l.take (i * k + k) = (l.take (j * k)).take (i * k + k) := by
+      rw [List.take_take, Nat.min_eq_left hle]
+    rw [e] at h1
+    exact List.mem_of_mem_take h1
+  have h3 : x ∈ l.drop (j * k) := List.mem_of_mem_take hj
+  have hnd' : (l.take (j * k) ++ l.drop (j * k)).Nodup := by rw [List.take_append_drop]; exact hnd
+  exact (List.nodup_append.mp hnd').2.2 x h2 x h3 rfl
+
+theorem peerCut_none_of_limit_none (m : EvalMode) (req : Request) (h : req.limit = none) :
+    peerCut m req = none := by
+  unfold peerCut resultLimit
+  rw [h]
+  cases m.earlyCut <;> rfl
+
+theorem peerCut_none_of_limit_zero (m : EvalMode) (req : Request) (h : req.limit = some 0)
+    (ho : req.offset = 0) : peerCut m req = none := by
+  unfold peerCut resultLimit
+  rw [h, ho]
+  cases m.earlyCut <;> cases isDefaultSortOrder req <;> rfl
+
+theorem window_whole (req : Request) (pool : List Hit) (hl : req.limit = none)
+    (ho : req.offset = 0) : window req pool = pool := by
+  simp [window, hl, ho]
+
 end Lmd.Pages
